@@ -138,7 +138,25 @@ def run_case(case, tier):
         classes.append("display-mode")
         nsw = contracts.COUNTS.get("coupling_contract_with_swap", 0)
         return util.finish(case, viol, counts, classes, nsw > 0, desc)
-    on = obs.run_single(text, extra, keep_mol=True)
+    # an observer that renders the rows of a conformation right before its search starts (what a caller
+    # logging intermediate results does): reading a row changes nothing, and the rows read afterwards
+    # are those of the finished state
+    import propka.conformation_container as cc
+    observer = rng.random() < 0.4
+    orig_search = cc.ConformationContainer.find_non_covalently_coupled_groups
+    if observer:
+        def watched(self, *a, **k):
+            for g_ in self.groups:
+                g_.get_determinant_string(False)
+                g_.get_determinant_string(True)
+            counts["rows_read_before_search"] = counts.get("rows_read_before_search", 0) + len(self.groups)
+            return orig_search(self, *a, **k)
+        cc.ConformationContainer.find_non_covalently_coupled_groups = watched
+        classes.append("rows-read-before-the-search")
+    try:
+        on = obs.run_single(text, extra, keep_mol=True)
+    finally:
+        cc.ConformationContainer.find_non_covalently_coupled_groups = orig_search
     nsw = contracts.COUNTS.get("coupling_contract_with_swap", 0)
     if on.mol is not None:
         swap.check_symmetry_and_stars(on.mol, viol, counts)
